@@ -8,6 +8,7 @@ import (
 	"github.com/glebziz/fs_db/internal/model"
 	"github.com/glebziz/fs_db/internal/model/core"
 	"github.com/glebziz/fs_db/internal/model/sequence"
+	"github.com/glebziz/fs_db/internal/verifhook"
 )
 
 func (u *UseCase) UpdateTx(ctx context.Context, oldTxId, newTxId string, filter model.FileFilter) (deleteFiles []model.File, err error) { //nolint:funlen,cyclop,lll // TODO fix
@@ -88,6 +89,7 @@ func (u *UseCase) UpdateTx(ctx context.Context, oldTxId, newTxId string, filter 
 			}
 		}
 
+		verifhook.Mut("kv.txn", "")
 		return nil
 	})
 	if err != nil {
